@@ -20,6 +20,6 @@ DomainsEvent ==
 Next == DomainsEvent
 Accepted ==
     IF TLCGet("stats").diameter - 1 = Len(Rec) THEN TRUE
-    ELSE /\ PrintT(<<"TRACE-REJECTED", TLCGet("stats").diameter, Rec[TLCGet("stats").diameter]>>)
+    ELSE /\ PrintT(<<"TRACE-REJECTED", TLCGet("stats").diameter>>)
          /\ FALSE
 =============================================================================
